@@ -143,7 +143,9 @@ func decode(c *mon.Ctx, e *ref.EBP) {
 	snap := append([]byte{}, in...)
 	if gen.HashString(string(in))%8 == 3 {
 		// right after calls that fail: no state is carried over
-		ebp.ReadEncoderBoundaryPoint(in[:1])
+		for cut := 0; cut < len(in); cut++ { // every proper prefix: rejected at every stage of the parse
+			ebp.ReadEncoderBoundaryPoint(in[:cut:cut])
+		}
 		ebp.ReadEncoderBoundaryPoint(nil)
 		ebp.ReadEncoderBoundaryPoint([]byte{0x00, 0x00})
 		c.Count("decode_after_failed_decode")
